@@ -209,3 +209,182 @@ theorem assignmentsToActions_valid (fl : Flags) (o : Orders) (assignments : AMap
     · rw [hsc] at h; simp at h
   · simp only [hpe] at h
     simp at h
+
+/-! ### the actions do not depend on the iteration order -/
+
+/-- the action the loop emits for a name (when it emits one) depends only on the tables, not on the order -/
+def actionOf (fl : Flags) (assignments : AMap Ex) (widths : AMap Width) (constants : AMap WireValue)
+    (byOutput : AMap FixedFunction) (name : String) : Option Action :=
+  match assignments.get? name with
+  | some e => (widths.get? name).map (fun w => Action.assign name (fixMux fl widths.toCtx constants.toEnv e) w)
+  | none => (byOutput.get? name).map (·.action)
+
+section
+variable (fl : Flags) (assignments : AMap Ex) (widths : AMap Width) (declared : List String)
+  (constants : AMap WireValue) (byOutput : AMap FixedFunction)
+
+theorem loopStep_clean_actionOf (st : LoopState) (name : String)
+    (hclean : (loopStep fl assignments widths declared constants byOutput st name).Clean) :
+    ∃ a, (loopStep fl assignments widths declared constants byOutput st name).result = st.result ++ [a] ∧
+      actionOf fl assignments widths constants byOutput name = some a := by
+  cases h1 : assignments.get? name with
+  | some expr =>
+    cases h2 : widths.get? name with
+    | none =>
+      exfalso
+      unfold loopStep LoopState.Clean at hclean
+      simp only [h1, h2] at hclean
+      split at hclean <;> simp at hclean
+    | some w =>
+      cases h3 : check fl widths.toCtx constants.toEnv expr with
+      | error ds =>
+        exfalso
+        unfold loopStep LoopState.Clean at hclean
+        simp only [h1, h2, h3] at hclean
+        have hds : ds ≠ [] := check_err fl _ _ expr ds h3
+        split at hclean <;> simp_all
+      | ok ew =>
+        refine ⟨Action.assign name (fixMux fl widths.toCtx constants.toEnv expr) w, ?_, ?_⟩
+        · unfold loopStep
+          simp only [h1, h2, h3]
+          repeat' split
+          all_goals rfl
+        · simp [actionOf, h1, h2]
+  | none =>
+    cases h2 : byOutput.get? name with
+    | none =>
+      exfalso
+      unfold loopStep LoopState.Clean at hclean
+      simp only [h1, h2] at hclean
+      split at hclean <;> simp_all [setInsert_ne_nil]
+    | some f =>
+      refine ⟨f.action, ?_, ?_⟩
+      · unfold loopStep
+        simp only [h1, h2]
+        split <;> rfl
+      · simp [actionOf, h1, h2]
+
+theorem actionsLoop_result (names : List String) (st : LoopState)
+    (hclean : (actionsLoop fl assignments widths declared constants byOutput names st).Clean) :
+    (actionsLoop fl assignments widths declared constants byOutput names st).result =
+      st.result ++ names.filterMap (actionOf fl assignments widths constants byOutput) ∧
+    ∀ n ∈ names, (actionOf fl assignments widths constants byOutput n).isSome = true := by
+  induction names generalizing st with
+  | nil => simp [actionsLoop]
+  | cons name rest ih =>
+    have hstep : actionsLoop fl assignments widths declared constants byOutput (name :: rest) st =
+        actionsLoop fl assignments widths declared constants byOutput rest
+          (loopStep fl assignments widths declared constants byOutput st name) := by
+      simp [actionsLoop]
+    rw [hstep] at hclean ⊢
+    have hc1 := actionsLoop_clean_back fl assignments widths declared constants byOutput rest _ hclean
+    obtain ⟨a, ha1, ha2⟩ := loopStep_clean_actionOf fl assignments widths declared constants byOutput st name hc1
+    obtain ⟨hb1, hb2⟩ := ih _ hclean
+    constructor
+    · rw [hb1, ha1, List.filterMap_cons, ha2]
+      simp
+    · intro n hn
+      rcases List.mem_cons.mp hn with h | h
+      · subst h; rw [ha2]; rfl
+      · exact hb2 n h
+end
+
+/-- two iteration orders: the same set of actions -/
+theorem assignmentsToActions_order_independent (fl : Flags) (o₁ o₂ : Orders) (assignments : AMap Ex) (widths : AMap Width)
+    (known : List String) (fixed : List FixedFunction) (declared : List String) (constants : AMap WireValue)
+    (acts₁ acts₂ : List Action) (ho₁ : OrdersOK o₁) (ho₂ : OrdersOK o₂) (ht : FixedTableOK fixed) (hk : assignments.keys.Nodup)
+    (hpure : ∀ f ∈ fixed, f.outWire.isSome = f.action.isPure)
+    (h₁ : assignmentsToActions fl o₁ assignments widths known fixed declared constants = .ok acts₁)
+    (h₂ : assignmentsToActions fl o₂ assignments widths known fixed declared constants = .ok acts₂) :
+    ∃ pre₁ pre₂ fin, acts₁ = pre₁ ++ fin ∧ acts₂ = pre₂ ++ fin ∧ (∀ a, a ∈ pre₁ ↔ a ∈ pre₂) ∧
+      (∀ a ∈ pre₁, a.isPure = true) ∧ (∀ a ∈ pre₂, a.isPure = true) ∧ (∀ a ∈ fin, a.isPure = false) := by
+  unfold assignmentsToActions at h₁ h₂
+  simp only at h₁ h₂
+  obtain ⟨g0wf, g0nodes, g0edges⟩ := assignGraph_spec assignments known hk
+  generalize hg0 : assignGraph assignments known = g0 at h₁ h₂ g0wf g0nodes g0edges
+  generalize hpre : fixed.foldl (preprocessOne fl widths constants assignments known) { graph := g0 } = pre at h₁ h₂
+  by_cases hpe : pre.errors.isEmpty = true
+  · have hpe' : pre.errors = [] := by simpa using hpe
+    simp only [hpe, Bool.not_true, Bool.false_eq_true, if_false] at h₁ h₂
+    have hg0c : ∀ e ∈ g0.edges, assignments.contains e.2 = true := by
+      intro e he
+      obtain ⟨ex, hm, _⟩ := (g0edges e.1 e.2).mp he
+      exact (AMap.contains_iff_mem_keys _ _).mpr (List.mem_map.mpr ⟨(e.2, ex), hm, rfl⟩)
+    have hinit : PreFacts assignments known g0 [] ({ graph := g0 } : PreState) :=
+      { noOut := by intro f hf; simp at hf
+        byKeys := by simp [AMap.keys]
+        byOut := by intro n f hf; simp at hf
+        wf := g0wf
+        nodes := fun n hn => hn
+        edges := fun e he => Or.inl he
+        noOutSub := List.Sublist.refl _
+        edgesG0 := fun e he => he
+        edgesFixed := by intro n f hf; simp at hf }
+    have hpf := preprocess_fold_facts fl widths constants assignments known fixed ht g0 hg0c fixed [] _ (by simp) hinit
+      (by rw [hpre]; exact hpe')
+    rw [hpre] at hpf
+    rcases pre.graph.sort_spec o₁ hpf.wf ho₁ with ⟨order₁, hso₁, _, hcover₁, _⟩ | ⟨c, hsc, _⟩
+    · rcases pre.graph.sort_spec o₂ hpf.wf ho₂ with ⟨order₂, hso₂, _, hcover₂, _⟩ | ⟨c, hsc, _⟩
+      · rw [hso₁] at h₁; rw [hso₂] at h₂
+        simp only at h₁ h₂
+        generalize hst₁ : actionsLoop fl assignments widths declared constants pre.info.byOutput order₁ { covered := known } = st₁ at h₁
+        generalize hst₂ : actionsLoop fl assignments widths declared constants pre.info.byOutput order₂ { covered := known } = st₂ at h₂
+        have clean_of : ∀ (st : LoopState) (acts : List Action),
+            (if (st.errors ++ st.seenUndeclared.map (fun n => (⟨.UnsetUndeclaredWire, [n]⟩ : Diag))).isEmpty = true
+              then (Except.ok (st.result ++ pre.info.noOutput.map (·.action)) : C (List Action))
+              else .error (st.errors ++ st.seenUndeclared.map (fun n => (⟨.UnsetUndeclaredWire, [n]⟩ : Diag)))) = .ok acts →
+            st.Clean ∧ acts = st.result ++ pre.info.noOutput.map (·.action) := by
+          intro st acts hh
+          split at hh
+          · rename_i herr
+            have : st.errors ++ st.seenUndeclared.map (fun n => (⟨.UnsetUndeclaredWire, [n]⟩ : Diag)) = [] := by simpa using herr
+            rw [List.append_eq_nil_iff] at this
+            simp only [Except.ok.injEq] at hh
+            exact ⟨⟨this.1, by simpa using this.2⟩, hh.symm⟩
+          · simp at hh
+        obtain ⟨hc₁, he₁⟩ := clean_of st₁ acts₁ h₁
+        obtain ⟨hc₂, he₂⟩ := clean_of st₂ acts₂ h₂
+        obtain ⟨hr₁, _⟩ := actionsLoop_result fl assignments widths declared constants pre.info.byOutput order₁ _ (by rw [hst₁]; exact hc₁)
+        obtain ⟨hr₂, _⟩ := actionsLoop_result fl assignments widths declared constants pre.info.byOutput order₂ _ (by rw [hst₂]; exact hc₂)
+        rw [hst₁] at hr₁; rw [hst₂] at hr₂
+        simp only [List.nil_append] at hr₁ hr₂
+        have hpureOf : ∀ (n : String) (a : Action),
+            actionOf fl assignments widths constants pre.info.byOutput n = some a → a.isPure = true := by
+          intro n a ha
+          unfold actionOf at ha
+          cases hg : assignments.get? n with
+          | some e =>
+            rw [hg] at ha
+            simp only [Option.map_eq_some_iff] at ha
+            obtain ⟨w, _, rfl⟩ := ha
+            rfl
+          | none =>
+            rw [hg] at ha
+            simp only [Option.map_eq_some_iff] at ha
+            obtain ⟨f, hf, rfl⟩ := ha
+            obtain ⟨hfd, ⟨w, hw⟩, _⟩ := hpf.byOut n f (AMap.mem_of_get? _ _ _ hf)
+            rw [← hpure f hfd, hw]; rfl
+        refine ⟨st₁.result, st₂.result, pre.info.noOutput.map (·.action), he₁, he₂, ?_, ?_, ?_, ?_⟩
+        · intro a
+          rw [hr₁, hr₂, List.mem_filterMap, List.mem_filterMap]
+          constructor
+          · rintro ⟨n, hn, ha⟩; exact ⟨n, (hcover₂ n).mpr ((hcover₁ n).mp hn), ha⟩
+          · rintro ⟨n, hn, ha⟩; exact ⟨n, (hcover₁ n).mpr ((hcover₂ n).mp hn), ha⟩
+        · intro a ha
+          rw [hr₁, List.mem_filterMap] at ha
+          obtain ⟨n, _, hn⟩ := ha
+          exact hpureOf n a hn
+        · intro a ha
+          rw [hr₂, List.mem_filterMap] at ha
+          obtain ⟨n, _, hn⟩ := ha
+          exact hpureOf n a hn
+        · intro a ha
+          obtain ⟨f, hf, rfl⟩ := List.mem_map.mp ha
+          obtain ⟨hfd, hnone, _⟩ := hpf.noOut f hf
+          have := hpure f hfd
+          rw [hnone] at this
+          simpa using this.symm
+      · rw [hsc] at h₂; simp at h₂
+    · rw [hsc] at h₁; simp at h₁
+  · simp only [hpe] at h₁
+    simp at h₁
